@@ -496,6 +496,61 @@ def run(ctx):
                         lambda resp, cs=cs, ts=ts: tl.mols_equal(cs, tl.parse_read_response(resp)) or ctx.disagree(
                             "Structure.loads_all_mol2 differs from the model reader", ts, tl.short_mols(cs), tl.short_mols(tl.parse_read_response(resp))))
 
+    # ------------------------------------------------------------------ several molecules with DIFFERENT names in one text /
+    # stream / file, written one after another by molli's writers and read in one go by every multi-molecule entry
+    # point of every class: block k comes back with ITS name (and atoms, bonds) — nothing carries over between blocks
+    def multi_case(mspecs):
+        text = "".join(tl.build_molecule(en, sp, ml.Molecule).dumps_mol2() for sp in mspecs)
+        ctx.case({"multi": mspecs}, True)
+        ctx.count(f"multi_molecule_texts={len(mspecs)}")
+        replay = {"kind": "multi-molecule-text", "specs": mspecs}
+        path = ctx.scratch / "multi.mol2"
+        path.write_text(text)
+        from io import StringIO
+
+        def stream_of(fn):
+            def run_():
+                with open(path, "rt") as f:
+                    return fn(f)
+            return run_
+
+        readers = []
+        for cname, cls in (("Molecule", ml.Molecule), ("Structure", ml.Structure)):
+            readers += [(f"{cname}.loads_all_mol2(string)", cls, lambda cls=cls: cls.loads_all_mol2(text)),
+                        (f"{cname}.load_all_mol2(str path)", cls, lambda cls=cls: cls.load_all_mol2(str(path))),
+                        (f"{cname}.load_all_mol2(Path)", cls, lambda cls=cls: cls.load_all_mol2(path)),
+                        (f"{cname}.load_all_mol2(stream)", cls, stream_of(cls.load_all_mol2)),
+                        (f"list({cname}.yield_from_mol2(string))", cls, lambda cls=cls: list(cls.yield_from_mol2(text))),
+                        (f"list({cname}.yield_from_mol2(StringIO))", cls, lambda cls=cls: list(cls.yield_from_mol2(StringIO(text))))]
+        results = []
+        for how, cls, fn in readers:
+            ctx.count("multi_molecule_reads")
+            wc = cls is ml.Molecule
+            st, r = tl.limited(fn)
+            if st != "ok":
+                ctx.violation("C07:own-output-rejected", f"{how}: a text of {len(mspecs)} molecules written by molli was rejected ({r!r})", replay)
+                continue
+            got = [tl.canon_mol(en, x, with_charges=wc) for x in r]
+            if len(got) != len(mspecs):
+                ctx.violation("C07:molecule-count", f"{how}: {len(mspecs)} molecules written, {len(got)} read", replay)
+                continue
+            for bi, (sp, g) in enumerate(zip(mspecs, got)):
+                oracle_roundtrip(ctx, en, sp, g, f"{how}, block {bi}", replay, check_charges=wc)
+            results.append((how, got, wc))
+        for kindw in ("molecule", "structure"):
+            sel = [(how, got) for how, got, wc in results if wc == (kindw == "molecule")]
+            ask(f"read {kindw} ~ 1/1 {tl.hx(text)}",
+                lambda resp, sel=sel: [tl.mols_equal(got, tl.parse_read_response(resp)) or ctx.disagree(
+                    f"{how} differs from the model reader on a multi-molecule text", [sp["name"] for sp in mspecs],
+                    [m["name"] for m in got], resp[:200]) for how, got in sel])
+
+    name_pool = [n for n in tl.NAMES if _admissible_name(n)] + ["alpha", "beta 2", "Gamma_3", "m-4"]
+    for i in range(20 if quick else 300):
+        ctx.check_deadline()
+        k = rng.range(2, 4)
+        names = rng.shuffle(list(name_pool))[:k]
+        multi_case([tl.gen_mol_spec(rng, en, 5, specials=False, name=nm) for nm in names])
+
     # ------------------------------------------------------------------ ensembles: conformer count and order
     n_ens = 40 if quick else 1500
     for i in range(n_ens):
@@ -517,6 +572,8 @@ def run(ctx):
         try:
             mols = [tl.build_molecule(en, s, ml.Molecule) for s in confs]
             ens = ml.ConformerEnsemble(mols)
+            replay["weights"] = tl.set_weights(rng, ens)     # conformer k of the text is conformer k of the object, whatever the weights
+            ctx.count("ensemble_" + replay["weights"].split("=")[0])
         except Exception as e:  # noqa: BLE001
             ctx.disagree("could not build the ensemble through the public API", base, repr(e), "ok")
             continue
